@@ -370,6 +370,16 @@ def check_failpoint(case, ctx):
     return out
 
 
+def setup(ctx):
+    """Evidence: which single alphabet characters the third-party converter itself fails to round-trip
+    (only those are removed by the per-text calibration; everything else that fails is the middleware's doing)."""
+    if ctx.shard == 0:
+        bad = [c for c in ALPHABET if not direct_roundtrip("a" + c + "b")]
+        for c in bad:
+            ctx.state("calibration: pylatexenc itself does not round-trip %r (U+%04X), excluded" % (c, ord(c)))
+        ctx.note("alphabet_chars_not_roundtripped_by_third_party", len(bad))
+
+
 def check(case, ctx):
     k = case["k"]
     out = check_rt(case, ctx) if k == "rt" else check_scope(case, ctx) if k == "scope" else check_failpoint(case, ctx)
